@@ -8,5 +8,6 @@ CONSTANTS
   InitShapes <- FewShapes
 SPECIFICATION Spec
 INVARIANTS TypeOK Purity
+PROPERTIES AbsRefines AbsInitHolds
 VIEW View
 CHECK_DEADLOCK FALSE
